@@ -20,6 +20,8 @@ NOTES = {
     "C11-n3": "same change as C02-n1 / C01-n3 (MethodMatcher::remove stops at the first bucket)",
     "C18-p1": "superseded by C18-p1b: the original patch no longer applies on the tree that contains fix a29985c (same lines of callback_log.rs); "
               "its run on the earlier tree was caught (abort: the message released twice)",
+    "C01-r2": "the change needs a REMOVAL (a multi-network rule removed from a router): it is caught by the check of C02 (panic: the per-layer counter underflows; histories with "
+              "removals are C02's universe), not by C01's own check, whose routers are only built",
     "C03-m3": "superseded by C03-m3b: the original patch no longer applies on the tree that contains fix daccdd4",
 }
 latest = {}
